@@ -18,4 +18,14 @@ PROPS = {
                      "Substr with start > finish or negative start is outside the documented precondition: compared with the model, not judged"],
         partial=[],
     ),
+    "C14": dict(
+        lean_modules=["CCVerif.Properties.C14"],
+        harness=["c14_main.cpp"],
+        exhaustive=True,
+        trusted_base=["std::unordered_set iteration order is an input: the harness passes the order the implementation used",
+                      "the verticies hash map is modelled as a derived function of the vertex vector"],
+        assumptions=["VertexIndex is int32_t: more than 2^31 vertices ever created is not modelled",
+                     "IsReachableFrom(x, x) answers 'direct self-loop' in the code; characterised by the model, judged by the oracle only when a self-loop exists"],
+        partial=[],
+    ),
 }
